@@ -182,6 +182,37 @@ theorem collectFields_memo_sound (S : Schema) (D : Document) (hpos : (D.nodes.ma
     CacheOK S D (· ∈ D.nodes) c' ∧ ∃ fuel0 fs v, expand S D o fuel0 sels [] = .ok (fs, v) ∧ g = groupInOrder fs :=
   collectFields_inv true S D (· ∈ D.nodes) (nodeSet_of_distinct_positions D hpos).1 fuel o sels c g c' hc ho hsels h
 
+/-! ## 5. Every failure-null is explained exactly once -/
+
+/-- **null_explained_once** — every error the reference requires (the error of the failing position
+    behind a null that stays visible in data: path of the failing field or list item, location of the
+    first selecting field node, all merged nodes for resolver errors) occurs in the executor's error
+    list exactly once. (At least once by `errors_sandwich`; at most once because the reference raises
+    at most one error per response position, `spec_errors_distinct`, and the executor reports a sub-multiset.) -/
+theorem null_explained_once (S : Schema) (D : Document) (hpos : (D.nodes.map Selection.pos).Nodup)
+    (fuel fuel' : Nat) (opName : String) (root : RVal) (resp : Response) (s : Spec.SOut)
+    (hm : execute true S D fuel opName root = .ok resp)
+    (hs : Spec.executeRequest S D fuel' opName root = .executed s) (hu : s.undef = false) :
+    ∀ e ∈ s.req, resp.errors.count e = 1 := by
+  intro e he
+  obtain ⟨h1, h2⟩ := errors_sandwich S D hpos fuel fuel' opName root resp s hm hs hu
+  have hnd := spec_request_all_nodup S D fuel' opName root s hs
+  have hle : resp.errors.count e ≤ 1 := Nat.le_trans (h2 e) (List.nodup_iff_count.mp hnd e)
+  have hge : 1 ≤ resp.errors.count e := Nat.le_trans (List.count_pos_iff.mpr he) (h1 e)
+  omega
+
+/-- **no_error_reported_twice** — the executor's error list has no duplicates. -/
+theorem no_error_reported_twice (S : Schema) (D : Document) (hpos : (D.nodes.map Selection.pos).Nodup)
+    (fuel fuel' : Nat) (opName : String) (root : RVal) (resp : Response) (s : Spec.SOut)
+    (hm : execute true S D fuel opName root = .ok resp)
+    (hs : Spec.executeRequest S D fuel' opName root = .executed s) (hu : s.undef = false) :
+    resp.errors.Nodup := by
+  obtain ⟨_, h2⟩ := errors_sandwich S D hpos fuel fuel' opName root resp s hm hs hu
+  have hnd := spec_request_all_nodup S D fuel' opName root s hs
+  rw [List.nodup_iff_count] at hnd ⊢
+  intro e
+  exact Nat.le_trans (h2 e) (hnd e)
+
 /-! ## 6. Leaf coercion -/
 
 /-- **leaf_coercion** — a leaf value at a built-in scalar type is completed to exactly
